@@ -3,7 +3,7 @@ import copy
 import warnings
 
 from vmon import gen, objs, param, prog
-from vmon.snap import diff, snapshot, state_key, timeline_diff
+from vmon.snap import diff, forget_pulses, snapshot, state_key, timeline_diff
 
 LEVEL = "exploration"
 RULE = ("a concrete valid program is generated online; every numeric argument position is independently (p=1/2) replaced "
@@ -16,7 +16,7 @@ ASSUMPTIONS = ["reference evaluation of expressions uses plain Python floats (vm
                "programs contain no deliberately invalid calls; a case tainted by a partial-effect raise is set aside (C09)"]
 TIERS = {"quick": dict(cases=1500, shards=8, case_timeout=180, shard_timeout=900),
          "thorough": dict(cases=24000, shards=16, case_timeout=180, shard_timeout=3000)}
-FLOORS = {"quick": {"builds_compared": 1200, "template_unchanged_checks": 1200, "rebuilds_compared": 400},
+FLOORS = {"quick": {"builds_compared": 1200, "template_unchanged_checks": 1200, "rebuilds_compared": 400, "earlier_builds_rechecked": 400},
           "thorough": {"builds_compared": 8000}}
 WEIGHTS = {"sample": 0, "str": 0, "to_abstract_repr": 0, "build_copy": 0, "queries": 0, "get_duration": 0,
            "estimate_added_delay": 0, "is_in_eom_mode": 0, "current_phase_ref": 0, "measure": 0.15,
@@ -156,6 +156,7 @@ def run_case(ctx, idx, rng, tier):
     v1eps = {n: ([x * (1 + 3e-6) for x in v] if isinstance(v, list) else v * (1 + 3e-6)) if t.kinds[n] == "float" else v
              for n, v in v1.items()}
     results = {}
+    kept: dict = {}
     for tag, vals in (("v1", v1), ("v1eps", v1eps), ("v2", v2), ("v1again", v1)):
         if tag == "v2":
             # between two builds: what the template hands out is the caller's to edit, and a template derived from it
@@ -218,6 +219,16 @@ def run_case(ctx, idx, rng, tier):
                 if not np.allclose(np.asarray(built.register.qubits[q]), lay.traps_dict[tid], atol=1e-9):
                     ctx.violation("mappable-trap", f"qubit {q} not on trap {tid}", "mappable-trap", case=case)
         results[tag] = sb
+        kept.setdefault(tag, built)
+        if tag in ("v1eps", "v2") and "v1" in kept:
+            # the sequence built first is an object of its own: later builds of the template must not reach into it
+            ctx.count("earlier_builds_rechecked")
+            forget_pulses()  # read the samples of its pulses again, not what was seen when it was built
+            d = timeline_diff(results["v1"], snapshot(kept["v1"]), tol=0.0)
+            if d:
+                ctx.violation("built-changed", f"the sequence returned by build(v1) changed when the template was built "
+                              f"again with other values ({tag}): {d[:3]}", "built-changed-by-later-build", case=case)
+                return
     if "v1" in results and "v1again" in results:
         ctx.count("rebuilds_compared")
         d = timeline_diff(results["v1"], results["v1again"], tol=0.0)
